@@ -29,6 +29,7 @@ TEMPLATES = {
     "o,r,*,r": ("o, {r1}, *, {r2}", ["o"], ["r1", "r2"]),
     # ordinary parameters with names the decorator may be tempted to use for itself
     "resources,func,r": ("resources, func, {r1}", ["resources", "func"], ["r1"]),
+    "o,*rest,r,r": ("o, *rest, {r1}, {r2}", ["o"], ["r1", "r2"]),  # called with extra positional arguments
     "r,*,args_,ctx": ("{r1}, *, wrapper, ctx", ["wrapper", "ctx"], ["r1"]),
 }
 REJECTS = ("posonly", "noannotation", "uncalled", "posonly-mixed", "noannotation-mixed", "uncalled-mixed", "uncalled-mixed-first")
@@ -50,7 +51,7 @@ def gen_source(template: str, ann1: str, ann2: str, name1: str, name2: str, is_a
     r2 = f"r2: {ann(ann2 if ann2 != 'future' else 'future', 'TB')} = {marker(name2)}"
     params = sig.format(r1=r1, r2=r2)
     bare = sig.format(r1="r1", r2="r2")  # (names from the template, not from the annotated text: annotations may contain commas)
-    names = [p.strip().split(":")[0].split("=")[0].strip() for p in bare.replace("*,", "").split(",") if p.strip() and p.strip() != "*"]
+    names = [p.strip().split(":")[0].split("=")[0].strip().lstrip("*") for p in bare.replace("*,", "").split(",") if p.strip() and p.strip() != "*"]
     body = "    REC.append({" + ", ".join(f"{n!r}: {n}" for n in names) + "})\n    return 'ret'\n"
     head = ("async def" if is_async else "def") + f" f({params}):\n"
     lines = []
@@ -354,9 +355,9 @@ class C19:
                    f"def build():\n"
                    f"    @inject\n    {d} first(r: {ann} = resource()):\n        REC.append(r)\n        return 'ret'\n"
                    f"    class Svc:\n        pass\n"
-                   f"    @inject\n    {d} second(r: Svc = resource()):\n        return r\n"
-                   f"    return first, Svc\n"
-                   f"f, TheSvc = build()\n")  # (the class is deliberately NOT a module-level name called Svc)
+                   f"    @inject\n    {d} second(r: {ann} = resource()):\n        REC2.append(r)\n        return 'ret2'\n"
+                   f"    return first, second, Svc\n"
+                   f"f, f2, TheSvc = build()\n")  # (the class is deliberately NOT a module-level name called Svc)
         else:
             ann = "Optional[Svc]" if case["optional"] else "Svc"
             aw = "await " if case["async"] and not case.get("mixed") else ""
@@ -367,7 +368,7 @@ class C19:
                    f"    @functools.wraps(fn)\n    {d} wrapper(*args, **kwargs):\n        CALLS.append(fn.__name__)\n        return {aw}fn(*args, **kwargs)\n"
                    f"    return wrapper\n"
                    f"@inject\n@logged\n{inner_d} f(r: {ann} = resource()):\n    REC.append(r)\n    return 'ret'\n")
-        ns: dict = {"REC": [], "CALLS": []}
+        ns: dict = {"REC": [], "REC2": [], "CALLS": []}
         try:
             with warnings.catch_warnings():
                 warnings.simplefilter("ignore")
@@ -412,6 +413,20 @@ class C19:
                     fails.append((what, "the lookup fails but the function body ran"))
             elif got != ("ok", "ret") or not ns["REC"] or ns["REC"][-1] is not exp[1]:
                 fails.append((what, f"explicit lookup returns {exp[1]!r}, the injected call gave {got!r} with argument {ns['REC'][-1:]!r}"))
+            if "late_local" in case and "f2" in ns:
+                # a SIBLING injected function defined in the same scope, first called after the first one: same outcome
+                try:
+                    r2 = ns["f2"]()
+                    if case["async"]:
+                        r2 = await r2
+                    got2: Any = ("ok", r2)
+                except BaseException as e:  # noqa: BLE001
+                    got2 = ("exc", type(e).__name__)
+                if exp[0] == "exc":
+                    if got2 != exp:
+                        fails.append((what, f"sibling function: explicit lookup raises {exp[1]}, the injected call gave {got2!r}"))
+                elif got2 != ("ok", "ret2") or not ns["REC2"] or ns["REC2"][-1] is not exp[1]:
+                    fails.append((what, f"sibling function defined in the same scope: explicit lookup returns {exp[1]!r}, the injected call gave {got2!r}"))
         return fails
 
     async def late_case(self, env: Any, case: dict) -> list:
@@ -573,10 +588,12 @@ class C19:
                    "ctx": "kwonly-ctx"}
         args, kwargs = [], {}
         for o in ords:
-            if o in ("k", "wrapper", "ctx") or case["style"] == "kw":
+            if o in ("k", "wrapper", "ctx") or (case["style"] == "kw" and "*rest" not in sig):
                 kwargs[o] = ordvals[o]
             else:
                 args.append(ordvals[o])
+        if "*rest" in sig:
+            args += ["extra-1", "extra-2", "extra-3"]
         opt = {"r1": optional_of(case["ann1"]), "r2": optional_of(case["ann2"])}
         pairs = {"r1": (TA, case["name1"]), "r2": (TB, case["name2"])}
         # twin: explicit lookups
@@ -635,6 +652,8 @@ class C19:
                     for o in ords:
                         if body.get(o) != ordvals[o]:
                             fails.append(("passthrough", f"ordinary argument {o}: got {body.get(o)!r}"))
+                    if "rest" in body and tuple(body["rest"]) != ("extra-1", "extra-2", "extra-3"):
+                        fails.append(("passthrough", f"extra positional arguments arrived as {body['rest']!r}"))
                     if "od" in body and body["od"] != 7:
                         fails.append(("passthrough", f"default of od changed to {body['od']!r}"))
                     if "k" in body and "k" not in ords and body["k"] != 3:
